@@ -228,6 +228,43 @@ func ruleC11_3(c *Ctx) {
 			}
 		}
 	}
+	// the marking loop is unconditional inside the branch, and the branch returns (f, nil) so that the event loop flushes
+	var markLoop *Loop
+	loops := loopsOf(sread)
+	for _, b := range sread.Blocks {
+		if !inBranch(b) {
+			continue
+		}
+		for _, in := range b.Instrs {
+			if st, ok := in.(*ssa.Store); ok {
+				if fa, ok := st.Addr.(*ssa.FieldAddr); ok && fieldVar(fa.X.Type(), fa.Field) == doneFrag {
+					if l := innermostLoop(loops, b); l != nil {
+						markLoop = l
+					}
+				}
+			}
+		}
+	}
+	nret := 0
+	for _, b := range sread.Blocks {
+		if !inBranch(b) {
+			continue
+		}
+		r, ok := b.Instrs[len(b.Instrs)-1].(*ssa.Return)
+		if !ok {
+			continue
+		}
+		nret++
+		if markLoop != nil {
+			c.check(markLoop.Header.Dominates(b), "conn.sread error branch marks every fragment Done on every path", c.at(r), "the marking loop dominates the branch's return",
+				"the loop that marks the sibling fragments Done is skipped on some path of the error branch (e.g. only for some command types): late replies of the siblings of a failed request are then merged into the already answered request")
+		}
+		c.check(isNilConst(results(r)[1]), "conn.sread error branch returns (f, nil)", c.at(r), "nil error: the event loop goes on to flush the completed request",
+			"after completing the request with an error conn.sread returns "+expr(results(r)[1])+" instead of nil: when that is Continue the event loop skips the flush and the client never receives the error")
+	}
+	if nret == 0 {
+		c.bad("conn.sread error branch returns (f, nil)", p.pos(sread.Pos()), "the error branch does not return by itself: control falls through to a return whose error may be Continue, so the completed request is not flushed and the client stalls")
+	}
 	for k, v := range want {
 		c.check(v, "conn.sread error branch writes Msg."+k, p.pos(sread.Pos()), "on f.Error.NotNil()",
 			"when a fragment fails, the whole request is not completed with Msg."+k+": the client gets no error (or waits forever) for a multi-key request one of whose nodes answered with an error")
